@@ -125,7 +125,8 @@ class JSONSerialization(Serialization):
             schema = dispatch_method(p, safe=safe)
         else:
             schema = {'type': ptype.lower()}
-        return JSONNullable(schema) if p.allow_None else schema
+        # a parameter whose default is None serializes to null whatever allow_None says
+        return JSONNullable(schema) if (p.allow_None or p.default is None) else schema
 
     @classmethod
     def serialize_parameter_value(cls, pobj, pname):
